@@ -120,16 +120,24 @@ def replay_publish(ctx, prog, s, info, h, name, claim, prior):
     test = API_PRELUDE + f'''
 #[test]
 fn verif_replay_c02() {{
+    use amq_protocol::protocol::basic;
     let (ch, rx, _tx) = mk_channel({cid}, {pm}usize);
     let body = mk_body({L});
     let r = ch.basic_publish({rs_str(nm.s(h['exchange']))}, crate::Publish {{ body: &body, routing_key: {rs_str(nm.s(h['rk']))}.into(), mandatory: {'true' if nm.b(h['mandatory']) else 'false'}, immediate: {'true' if nm.b(h['immediate']) else 'false'}, properties: Default::default() }});
-    println!("VERIF-OBS res={{}}|{{}}", if r.is_ok() {{ "Ok" }} else {{ "Err" }}, frames_of(&rx));
+    let got = raw_of(&rx);
+    // reference framing, encoded by amq-protocol
+    let mut want: Vec<Vec<u8>> = Vec::new();
+    want.push(enc(&AMQPFrame::Method({cid}, AMQPClass::Basic(basic::AMQPMethod::Publish(basic::Publish {{ ticket: 0, exchange: {rs_str(nm.s(h['exchange']))}.into(), routing_key: {rs_str(nm.s(h['rk']))}.into(), mandatory: {'true' if nm.b(h['mandatory']) else 'false'}, immediate: {'true' if nm.b(h['immediate']) else 'false'} }})))));
+    want.push(enc(&AMQPFrame::Header({cid}, 60, Box::new(amq_protocol::frame::AMQPContentHeader {{ class_id: 60, weight: 0, body_size: {L}, properties: Default::default() }}))));
+    for c in body.chunks({pm}usize) {{ want.push(enc(&AMQPFrame::Body({cid}, c.to_vec()))); }}
+    if !r.is_ok() || got != want {{
+        println!("VERIF-REPLAY-VIOLATION publish-framing ok={{}} messages={{}} want={{}} first_diff={{:?}}", r.is_ok(), got.len(), want.len(), got.iter().zip(want.iter()).position(|(a, b)| a != b));
+    }} else {{ println!("VERIF-REPLAY-OK"); }}
     std::mem::forget(ch);
 }}
 '''
-    expected = 'res=Ok|' + engine_frames(prog, info, nm)
-    ctx.report_obs('publish-framing', f"basic_publish(len={L}, payload limit={pm}) hands the I/O thread frames that break the claim", {'len': L, 'payload_max': pm, 'channel': cid, 'engine_observation': expected},
-                   test, expected, inject_into='src/io_loop/channel_handle.rs')
+    ctx.report('publish-framing', f"basic_publish(len={L}, payload limit={pm}) hands the I/O thread frames that break the claim", {'len': L, 'payload_max': pm, 'channel': cid}, test,
+               inject_into='src/io_loop/channel_handle.rs', profiles=('dev',))
 
 
 if __name__ == '__main__':
